@@ -1,8 +1,12 @@
 import DM.Drv.C12
+import DM.Drv.C06
 open DM.Drv
 
 def dispatch (args : List String) : String :=
   match c12 args with
+  | some r => r
+  | none =>
+  match c06 args with
   | some r => r
   | none => "bad-op"
 
